@@ -43,6 +43,32 @@ pub struct PropCfg {
     pub panic_oracle: bool,
     /// additionally run every step through Vfs::Memfs and compare transcripts (C13)
     pub wrapper: bool,
+    /// additionally run every step with canonical (already resolved) path arguments on a twin
+    /// instance and compare outcomes and states (C05 spelling independence)
+    pub canon_twin: bool,
+}
+
+/// The same operation with every path argument replaced by its reference resolution; None when
+/// some argument does not resolve (then both instances get the original operation)
+pub fn canonical_op(m: &Model, op: &Op) -> Option<Op> {
+    let mut c = op.clone();
+    if let Op::Symlink { l, t } = &mut c {
+        let la = m.abs(l).ok()?;
+        let lp = tree::parent(&la).unwrap_or_else(|| "/".into());
+        let joined = if t.starts_with('/') { t.clone() } else { crate::refpath::mash(&lp, t) };
+        let ta = m.abs(&joined).ok()?;
+        *l = la;
+        *t = ta;
+        return Some(c);
+    }
+    if matches!(c, Op::Expand { .. } | Op::Macro { .. } | Op::Abs { .. }) {
+        return None;
+    }
+    for p in c.paths_mut() {
+        let a = m.abs(p).ok()?;
+        *p = a;
+    }
+    Some(c)
 }
 
 #[derive(Clone, Debug, Serialize, Deserialize)]
@@ -332,8 +358,10 @@ pub fn run_seq(pc: &PropCfg, knobs: &Knobs, env: &Env, mut src: Source, stats: &
     let hk = hooks::install_seq(knobs);
     let fs = Memfs::new();
     let wfs: Option<Vfs> = if pc.wrapper { Some(Vfs::memfs()) } else { None };
+    let cfs: Option<Memfs> = if pc.canon_twin { Some(Memfs::new()) } else { None };
     let mut hs = Handles::default();
     let mut whs = Handles::default();
+    let mut chs = Handles::default();
     let mut m = Model::new(env.clone());
     m.strict_listing_links = pc.strict.strict_listing_links;
     let mut ops_done: Vec<Op> = vec![];
@@ -359,12 +387,16 @@ pub fn run_seq(pc: &PropCfg, knobs: &Knobs, env: &Env, mut src: Source, stats: &
             println!("T {}", serde_json::json!({"label": op.label(), "op": op}));
             let _ = std::io::stdout().flush();
         }
+        let canon = if pc.canon_twin { canonical_op(&m, &op) } else { None };
         let out = exec::exec(&fs, &mut hs, &op);
         ops_done.push(op.clone());
         if out == Outcome::Skip {
             stats.skipped_steps += 1;
             if let Some(w) = &wfs {
                 let _ = exec::exec(w, &mut whs, &op);
+            }
+            if let Some(c) = &cfs {
+                let _ = exec::exec(c, &mut chs, canon.as_ref().unwrap_or(&op));
             }
             continue;
         }
@@ -487,6 +519,32 @@ pub fn run_seq(pc: &PropCfg, knobs: &Knobs, env: &Env, mut src: Source, stats: &
             stats.bump(&format!("wrapper_compared.{}", op.name()));
         }
 
+        // C05: the same step with canonical spellings on the twin instance
+        if let Some(c) = &cfs {
+            let cop = canon.as_ref().unwrap_or(&op);
+            let cout = exec::exec(c, &mut chs, cop);
+            if canon.is_some() && *cop != op {
+                stats.bump("canonical_twin_compared");
+                if cout != out {
+                    step_violations.push(Violation {
+                        property: "C05".into(),
+                        oracle: "spelling-outcome".into(),
+                        step,
+                        sig: format!("spelling-outcome|{}|{}|{} vs {}", op.label(), class, out.class(), cout.class()),
+                        detail: format!("{:?} -> {:?} but canonical {:?} -> {:?}", op, out, cop, cout),
+                    });
+                } else if c.verif_snapshot() != snap {
+                    step_violations.push(Violation {
+                        property: "C05".into(),
+                        oracle: "spelling-state".into(),
+                        step,
+                        sig: format!("spelling-state|{}|{}", op.label(), class),
+                        detail: format!("{:?} and canonical {:?} left different states", op, cop),
+                    });
+                }
+            }
+        }
+
         // bookkeeping: triples, shapes, event log
         let triple = format!("{}|{}|{}", op.label(), class, out.class());
         if m.t.nodes.len() <= 1 || class.starts_with("abs-err") {
@@ -518,7 +576,8 @@ pub fn run_seq(pc: &PropCfg, knobs: &Knobs, env: &Env, mut src: Source, stats: &
             let mine = v.property == pc.id
                 || (pc.integrity_oracle && v.property == "C03")
                 || (pc.panic_oracle && v.property == "C12")
-                || (pc.wrapper && v.property == "C13");
+                || (pc.wrapper && v.property == "C13")
+                || (pc.canon_twin && v.property == "C05");
             if !mine || (v.property == pc.id && v.oracle.starts_with("model-") && !pc.model_oracle) {
                 *stats.other_property.entry(format!("{}:{}", v.property, v.oracle)).or_insert(0) += 1;
                 continue;
@@ -547,6 +606,7 @@ pub fn run_seq(pc: &PropCfg, knobs: &Knobs, env: &Env, mut src: Source, stats: &
     // end of run: drop handles (their write-back is part of the run), final cross-checks
     hs.clear();
     whs.clear();
+    chs.clear();
     if violations.is_empty() {
         let snap = fs.verif_snapshot();
         if !snap.poisoned {
